@@ -579,6 +579,7 @@ class Query:
     undefined: object = None
     swapped: bool = False
     direct: str = ""
+    members: list = field(default_factory=list)  # queries sharing this formula (one solver call, several replays)
 
 
 def _eq(x, y):
@@ -685,7 +686,11 @@ def build_queries(bindings, known: set[str]) -> tuple[list[Query], list[str]]:
                     z3.fpGT(z3.fpFMA(RNE, q, b, z3.fpNeg(a)), z3.FPVal(0.0, F64)))
     qm1 = z3.fpSub(RNE, q, one)
     py_mod = z3.fpFMA(RNE, z3.fpNeg(qm1), b, a)
-    for name, want in (("__floordiv__", qm1), ("__mod__", py_mod), ("__divmod__", (qm1, py_mod))):
+    # One solver query: a point of the region.  Every point of it is a disagreement for all three operators
+    # (Guppy yields q, Python q-1; Python's remainder lies in (0, b), Guppy's a - q*b is <= 0); the concrete
+    # replay against CPython confirms that for //, % and divmod before anything is reported.
+    members = []
+    for name in ("__floordiv__", "__mod__", "__divmod__"):
         if ("float", name) not in bindings:
             continue
         try:
@@ -693,13 +698,14 @@ def build_queries(bindings, known: set[str]) -> tuple[list[Query], list[str]]:
         except Untranslatable as e:
             skipped.append(f"float.{name}: not translatable ({e})")
             continue
-        qs.append(Query(f"float.{name}@{k}", bindings[("float", name)].describe(), [a, b], ["float", "float"],
-                        # the solver is only asked for a point of the region (every point of it is a
-                        # disagreement: Guppy yields q, Python q-1; Python's remainder lies in (0, b), Guppy's a - q*b is <= 0); the concrete replay
-                        # against CPython confirms the disagreement before anything is reported
-                        region, region=k,
-                        binding=bindings[("float", name)].describe(), ty="float", dunder=name,
-                        got=got, undefined=undefined, swapped=False, direct=name))
+        members.append(Query(f"float.{name}@{k}", bindings[("float", name)].describe(), [a, b], ["float", "float"], region, region=k,
+                             binding=bindings[("float", name)].describe(), ty="float", dunder=name,
+                             got=got, undefined=undefined, swapped=False, direct=name))
+    if members:
+        head = members[0]
+        head.name = f"float.floordiv-mod-divmod@{k}"
+        head.members = members
+        qs.append(head)
     return qs, skipped
 
 
@@ -730,9 +736,13 @@ def fp_to_py(val) -> float:
     return float(eval(str(val)))  # noqa: S307
 
 
-def solve(q: Query, timeout_s: float) -> dict:
+def solve(q: Query, timeout_s: float, seed: int = 0) -> dict:
     s = z3.Solver()
     s.set("timeout", int(timeout_s * 1000))
+    if seed:
+        s.set("random_seed", seed)
+        z3.set_param("sat.random_seed", seed)
+        z3.set_param("smt.random_seed", seed)
     s.add(q.formula)
     t0 = time.time()
     r = str(s.check())
